@@ -49,7 +49,7 @@ CHECKS = {
                      "values computed from the true lattice coordinates. Truth law: adjusted = generating coordinates and zero residuals with "
                      "approximate coordinates given, omitted (all documented subsets) or perturbed by 30 / 100 / 600 mm (distinct per point and "
                      "coordinate), with instrument / target heights (both, one-sided, above and below tol-abs), with further consistent observations, "
-                     "for all four algorithms; for noisy observations the result must not depend on the perturbed approximate coordinates. "
+                     "for all four algorithms, and with omitted coordinates under permuted documents and renamed points; for noisy observations the result must not depend on the perturbed approximate coordinates. "
                      "AcordModel.tla states the documented strategy for approximate coordinates as a monotone closure (outer bearings, distances, inner "
                      "angles to known points; inserted traverse), TLC checks that every constructed point is in the closure and that added observations "
                      "never shrink it, and emits every construction history (polar by direction / angle, intersection, resection by directions / angles, "
